@@ -48,6 +48,7 @@ class UnitResult:
         self.stderr = ""
         self.assumptions = []
         self.cmd = ""
+        self.lost = {}              # function -> reason: could not be brought before the verifier (stubbed by its own contract)
 
     def failed_fns(self):
         return [n for n, r in self.fns.items() if r.ok is False]
@@ -104,19 +105,32 @@ def parse_diags(stderr):
     return out
 
 
-def run_unit(units, name, profile="debug", vacuity=False, extra_args=None, timeout=900, tag=""):
+def run_unit(units, name, profile="debug", vacuity=False, extra_args=None, timeout=900, tag="", force_stub=(), _depth=0):
     u = units[name]
     res = UnitResult(name, profile, vacuity)
     t0 = time.time()
     try:
         text, fn_names, labels = splice.generate(u, common.REPO, os.path.join(common.CONTRACTS, "verus"),
-                                                 profile=profile, vacuity=vacuity, units_by_name=units)
-    except (splice.SpliceError, Exception) as e:
+                                                 profile=profile, vacuity=vacuity, units_by_name=units, force_stub=force_stub)
+    except splice.SpliceError as e:
+        # a lost anchor inside one function: that function becomes undecided, the rest of the unit is still checked
+        m = re.search(r"(?:in|of|:) (\w+)(?: has| \w+ has|$)", str(e))
+        cand = [fc.name for fc in u.fn_contracts() if not fc.is_stub and re.search(r"\b%s\b" % re.escape(fc.name), str(e))]
+        if cand and _depth < 3 and not set(cand) <= set(force_stub):
+            r2 = run_unit(units, name, profile, vacuity, extra_args, timeout, tag, tuple(set(force_stub) | set(cand)), _depth + 1)
+            for c in cand:
+                r2.lost[c] = "extraction: %s" % e
+            return r2
         res.status = "undecided"
         res.reason = "extraction: %s" % e
         res.wall_s = time.time() - t0
         return res
-    res.contracted = fn_names
+    except Exception as e:
+        res.status = "undecided"
+        res.reason = "extraction: %s" % e
+        res.wall_s = time.time() - t0
+        return res
+    res.contracted = fn_names + [f for f in force_stub if f not in fn_names]
     res.stubs = [l[2] for l in labels if l[3]]
     d = os.path.join(common.scratch(), "verus")
     os.makedirs(d, exist_ok=True)
@@ -148,8 +162,21 @@ def run_unit(units, name, profile="debug", vacuity=False, extra_args=None, timeo
     res.errors = vr.get("errors", 0)
     diags = parse_diags(err)
     if vr.get("encountered-vir-error") or (not vr.get("success") and res.errors == 0):
-        res.status = "undecided"
         msgs = ["%s%s: %s (line %s)" % (d_[0], d_[1] or "", d_[2], d_[3]) for d_ in diags if d_[0] == "error"]
+        # which contracted functions own the offending lines?  Stub exactly those by their own contract and retry, so
+        # that one function leaving the verifier's subset does not take the whole unit with it.
+        owners = set()
+        for d_ in diags:
+            if d_[0] == "error" and d_[3]:
+                for a, b, nm, stub in labels:
+                    if a <= d_[3] <= b and not stub and nm in fn_names:
+                        owners.add(nm)
+        if owners and _depth < 3 and not owners <= set(force_stub):
+            r2 = run_unit(units, name, profile, vacuity, extra_args, timeout, tag, tuple(set(force_stub) | owners), _depth + 1)
+            for c in owners:
+                r2.lost[c] = "outside the verifier's subset: " + "; ".join(m for m in msgs[:3])
+            return r2
+        res.status = "undecided"
         res.reason = "generated file does not compile under Verus: " + "; ".join(msgs[:4])
         return res
     # per-function breakdown
@@ -198,6 +225,9 @@ def run_unit(units, name, profile="debug", vacuity=False, extra_args=None, timeo
         if r.ok is None:
             # a function with no SMT query of its own still counts as checked when the run succeeded
             r.ok = True
+    for nm in force_stub:
+        r = res.fns.setdefault(nm, FnResult(nm))
+        r.ok = None
     if res.errors == 0 and vr.get("success"):
         res.status = "ok"
     else:
